@@ -42,6 +42,8 @@ def check(prog, run):
     av1_reader_rule(prog, run, "R9")
     run.rule("R10", "offset-passing header parsers (VP9): every read starts at the offset returned by the read before it (+k) on every path; no field is read from bytes another field consumed")
     cursor_chain_rule(prog, run, "R10")
+    run.rule("R11", "byte-packed header fields (VP9): fields taken from one byte occupy non-empty, pairwise disjoint bit ranges")
+    bitfield_rule(prog, run, "R11")
     run.rule("R8", "table-driven configuration fields agree with their specification tables (AAC samplingFrequencyIndex; av1C flag bits per configuration field)")
     aac_frequency_index_rule(prog, run, "R8")
     av1c_flags_rule(prog, run, "R8")
@@ -355,7 +357,11 @@ def audio_entry(moov, run):
         if p[-1] == b"dOps":
             view, rest = B.byte_view(b[2])
             ch = B.field_value(view, 1, 1)
-            ok = ch[0] == "expr" and "channels" in L.field_names(ch[1])
+            v = ch[1][1] if ch[0] == "expr" and ch[1][0] == "u8" else None
+            while v is not None and v[0] == "cast":
+                v = v[2]
+            # the value itself (constructor and `with_channels` setter are looked through), not merely an expression that mentions it
+            ok = v is not None and v[0] == "field" and v[2] == "channels"
             run.check(ok, "R5", "dOps channel count", "OutputChannelCount from the configured channels", "dOps channel count is %s" % (L.show(ch[1])[:80] if ch[0] == "expr" else ch))
 
 
@@ -645,6 +651,47 @@ def av1_reader_rule(prog, run, rule):
             run.bad(rule, "AV1 sequence header (%s): %s" % (label, mm["what"]), "on the syntax path %s the parser deviates from the specification: %s" % (
                 {k: v for k, v in mm["scenario"].items() if v}, mm["what"]), mir.loc_of(u.bodies[name]) if name in u.bodies else None)
     run.extra["av1_syntax_paths_compared"] = total
+
+
+# ---- R11: bit fields packed into one byte ---------------------------------------------------------------------------------------
+def bitfield_rule(prog, run, rule):
+    """Byte-oriented header parsers (VP9: frame-header byte, colour-configuration byte) take several fields out of one byte with
+    `(byte >> s) & m`.  Fields taken from the same byte in the same function must occupy non-empty, pairwise disjoint bit ranges:
+    an empty range is a field that is constant by construction, an overlap reads one header bit as two fields (bit-level
+    counterpart of R10).  The field semantics themselves have no external specification and are not decided."""
+    u = prog.lib
+    n = 0
+    for f, b in sorted(u.bodies.items()):
+        if b["in_test_cfg"] or not mir.norm(f).startswith("codec::vp9::"):
+            continue
+        groups = {}
+        for blk in b["blocks"]:
+            if blk.get("cleanup"):
+                continue
+            for st in blk["stmts"]:
+                if st["k"] != "assign":
+                    continue
+                e = sym.expr_rv(b, st["rv"])
+                for t in sym.walk(e):
+                    if not (isinstance(t, tuple) and t and t[0] == "bin" and t[1] == "BitAnd" and t[3][0] == "const" and isinstance(t[3][1], int)):
+                        continue
+                    x, m, sh = t[2], t[3][1], 0
+                    if x[0] == "bin" and x[1] == "Shr" and x[3][0] == "const" and isinstance(x[3][1], int):
+                        x, sh = x[2], x[3][1]
+                    if not (x[0] == "load" and len(x) > 3 and x[2] == "u8"):
+                        continue
+                    bits = frozenset(sh + k for k in range(8) if (m >> k) & 1 and sh + k < 8)
+                    groups.setdefault((x[1], x[3]), {})[(sh, m)] = (bits, mir.loc_of(st))
+        for (path, idx), fields in sorted(groups.items(), key=repr):
+            items = sorted(fields.items())
+            for (sh, m), (bits, loc) in items:
+                n += 1
+                others = [(o, ob) for (o, (ob, _l)) in items if o != (sh, m) and ob & bits]
+                key = "bit field %s byte[%s] >>%d &0x%02x" % (mir.norm(f).split("::")[-1], sym.show(idx[0])[:30] if idx else "?", sh, m)
+                run.check(bool(bits) and not others, rule, key, "bits %s, disjoint from the other fields of that byte" % sorted(bits),
+                          ("`(byte >> %d) & 0x%02x` selects no bit of the byte: the field is constant 0 whatever the header says" % (sh, m)) if not bits else
+                          "`(byte >> %d) & 0x%02x` (bits %s) overlaps %s taken from the same byte: one header bit is read as two fields" % (sh, m, sorted(bits), ["(>>%d &0x%02x)" % o for o, _ in others]), loc)
+    run.floor(rule, n, 6, "bit fields extracted from header bytes (VP9)")
 
 
 # ---- R10: cursor discipline of offset-passing header parsers -------------------------------------------------------------------
